@@ -243,6 +243,8 @@ public:
         m_indentHandler.setPreserve(true);
 
         m_writer.write(chars, length);
+
+        m_indentHandler.setPrevText(true);
     }
 
 
@@ -486,6 +488,8 @@ protected:
                 m_constants.s_cdataCloseString,
                 m_constants.s_cdataCloseStringLength);
         }
+
+        m_indentHandler.setPrevText(true);
     }
 
     /**
